@@ -97,6 +97,8 @@ func typeFromExpr(pkg string, e ast.Expr) string {
 			return "int"
 		case "bool":
 			return "bool"
+		case "error":
+			return "err" // in functions that return only an error: a boolean "no error"
 		}
 		if _, ok := gxPkgs[pkg].structs[x.Name]; ok {
 			return "struct:" + pkg + "." + x.Name
@@ -497,7 +499,7 @@ var gxOrder []string
 var gxGroup string // group (output file) of the targets being translated
 
 func coqType(t string) string {
-	if t == "bool" {
+	if t == "bool" || t == "err" {
 		return "bool"
 	}
 	if t == "list" {
@@ -527,7 +529,13 @@ func (g *gxFn) stmts(list []ast.Stmt, results int) string {
 		}
 		return "(" + strings.Join(rs, ", ") + ")"
 	case *ast.AssignStmt:
-		if len(x.Lhs) == 1 && len(x.Rhs) == 1 {
+		if len(x.Lhs) == 1 && len(x.Rhs) == 1 && (x.Tok == token.ADD_ASSIGN || x.Tok == token.SUB_ASSIGN || x.Tok == token.MUL_ASSIGN) {
+			if id, ok := x.Lhs[0].(*ast.Ident); ok {
+				op := map[token.Token]string{token.ADD_ASSIGN: " + ", token.SUB_ASSIGN: " - ", token.MUL_ASSIGN: " * "}[x.Tok]
+				return "let " + id.Name + " := " + wrap(g.tr(id)+op+g.tr(x.Rhs[0]), g.typeOf(id)) + " in\n  " + g.stmts(rest, results)
+			}
+		}
+		if len(x.Lhs) == 1 && len(x.Rhs) == 1 && (x.Tok == token.DEFINE || x.Tok == token.ASSIGN) {
 			if id, ok := x.Lhs[0].(*ast.Ident); ok {
 				v := g.tr(x.Rhs[0])
 				t := g.typeOf(x.Rhs[0])
@@ -539,22 +547,79 @@ func (g *gxFn) stmts(list []ast.Stmt, results int) string {
 			}
 		}
 	case *ast.IfStmt:
-		if x.Init == nil && x.Else == nil {
+		// general scheme: the continuation is translated inside each branch, so assignments in a branch are plain
+		// shadowing lets and an early return simply ends that branch
+		if x.Init == nil {
 			c := g.tr(x.Cond)
-			body := x.Body.List
-			if len(body) > 0 {
-				if _, ok := body[len(body)-1].(*ast.ReturnStmt); ok {
-					return "if " + c + " then " + g.stmts(body, results) + "\n  else " + g.stmts(rest, results)
-				}
+			var elseList []ast.Stmt
+			switch e := x.Else.(type) {
+			case nil:
+			case *ast.BlockStmt:
+				elseList = e.List
+			case *ast.IfStmt:
+				elseList = []ast.Stmt{e}
+			default:
+				g.fail = "unsupported else"
+				return "?"
 			}
-			if len(body) == 1 {
-				if as, ok := body[0].(*ast.AssignStmt); ok && as.Tok == token.ASSIGN && len(as.Lhs) == 1 && len(as.Rhs) == 1 {
-					if id, ok := as.Lhs[0].(*ast.Ident); ok {
-						if _, isParam := g.ptypes[id.Name]; g.locals[id.Name] || isParam {
-							return "let " + id.Name + " := if " + c + " then " + g.tr(as.Rhs[0]) + " else " + id.Name + " in\n  " + g.stmts(rest, results)
-						}
-					}
+			save := func() (map[string]string, map[string]bool) {
+				e2, l2 := map[string]string{}, map[string]bool{}
+				for k, v := range g.env {
+					e2[k] = v
 				}
+				for k, v := range g.locals {
+					l2[k] = v
+				}
+				return e2, l2
+			}
+			e0, l0 := save()
+			thenS := g.stmts(append(append([]ast.Stmt{}, x.Body.List...), rest...), results)
+			g.env, g.locals = e0, l0
+			e1, l1 := save()
+			elseS := g.stmts(append(append([]ast.Stmt{}, elseList...), rest...), results)
+			g.env, g.locals = e1, l1
+			return "if " + c + " then " + thenS + "\n  else " + elseS
+		}
+	case *ast.DeclStmt:
+		if gd, ok := x.Decl.(*ast.GenDecl); ok && gd.Tok == token.VAR && len(gd.Specs) == 1 {
+			vs := gd.Specs[0].(*ast.ValueSpec)
+			if len(vs.Names) == 1 && len(vs.Values) <= 1 {
+				name := vs.Names[0].Name
+				t := "?"
+				if vs.Type != nil {
+					t = typeFromExpr(g.pkg, vs.Type)
+				}
+				v := "0"
+				if t == "bool" {
+					v = "false"
+				}
+				if t == "err" && g.errAsBool {
+					v = "true" // nil
+				}
+				if len(vs.Values) == 1 {
+					v = g.tr(vs.Values[0])
+					if t == "?" {
+						t = g.typeOf(vs.Values[0])
+					} else {
+						v = wrap(v, t)
+					}
+				} else if t == "?" || strings.HasPrefix(t, "struct:") || t == "list" {
+					g.fail = "variable of a type without a scalar zero value"
+					return "?"
+				}
+				g.env[name] = t
+				g.locals[name] = true
+				return "let " + name + " := " + v + " in\n  " + g.stmts(rest, results)
+			}
+		}
+	case *ast.IncDecStmt:
+		if id, ok := x.X.(*ast.Ident); ok {
+			if _, isParam := g.ptypes[id.Name]; g.locals[id.Name] || isParam {
+				op := " + 1"
+				if x.Tok == token.DEC {
+					op = " - 1"
+				}
+				return "let " + id.Name + " := " + wrap(id.Name+op, g.typeOf(id)) + " in\n  " + g.stmts(rest, results)
 			}
 		}
 	case *ast.ExprStmt:
